@@ -469,6 +469,7 @@ struct CbCtx {
   std::set<std::string> reject_base;
   std::set<std::string> reject_norm;
   std::set<std::string> reject_spelled;
+  bool nested = false; std::string n_usr, n_etc, n_name, n_suffix;   // the callback itself uses the library (re-entrancy)
   long long calls = 0;
 };
 static thread_local CbCtx *t_expected_cb = nullptr;
@@ -482,6 +483,17 @@ static bool the_callback(const char *filename, const void *data) {
   long long idx = m ? m->calls++ : -1;
   bool accept = true;
   std::string fn = filename ? filename : "";
+  if (m && m->nested) {
+    // a callback may consult configuration of its own (e.g. an accept/reject policy) through the same library
+    econf_file *pk = nullptr;
+#pragma GCC diagnostic push
+#pragma GCC diagnostic ignored "-Wdeprecated-declarations"
+    econf_err prc = econf_readDirs(&pk, m->n_usr.c_str(), m->n_etc.c_str(), m->n_name.c_str(), m->n_suffix.c_str(), "=", "#");
+#pragma GCC diagnostic pop
+    if (prc == ECONF_SUCCESS) { char *pv = nullptr; if (econf_getStringValue(pk, nullptr, "policy", &pv) == ECONF_SUCCESS) free(pv); }
+    econf_freeFile(pk);
+    R.fired["nested_library_call_in_callback"]++;
+  }
   if (m) {
     if (m->reject_paths.count(fn)) accept = false;
     if (!m->reject_norm.empty() && m->reject_norm.count(normp(fn))) accept = false;   // compared as normalised absolute paths
@@ -501,6 +513,7 @@ static void cb_setup(const json &op, CbCtx &c) {
   if (it->contains("reject_idx")) for (auto &p : (*it)["reject_idx"]) c.reject_idx.insert(p.get<long long>());
   if (it->contains("reject_norm")) for (auto &p : (*it)["reject_norm"]) c.reject_norm.insert(normp(subst_in(u2b(p.get<std::string>()))));
   if (it->contains("reject_spelled")) for (auto &p : (*it)["reject_spelled"]) c.reject_spelled.insert(collapse(subst_in(u2b(p.get<std::string>()))));
+  if (it->contains("nested")) { const json &n = (*it)["nested"]; c.nested = true; c.n_usr = SS(n, "usr"); c.n_etc = SS(n, "etc"); c.n_name = SS(n, "name"); c.n_suffix = SS(n, "suffix"); }
   if (it->contains("reject_base")) for (auto &p : (*it)["reject_base"]) c.reject_base.insert(u2b(p.get<std::string>()));
 }
 
@@ -1030,7 +1043,20 @@ static json run_plan(const json &plan) {
   TaskRun pro, epi; bool has_pro = plan.contains("prologue"), has_epi = plan.contains("epilogue");
   if (has_pro) { pro.ops = &plan["prologue"]; pro.ctx.id = -1; run_task_ops(&pro); out["prologue"] = pro.results; }
   bool multi = plan.contains("sched") && trs.size() >= 1 && plan["sched"].value("threads", trs.size() > 1);
-  if (!multi) {
+  long stack_kb = cfg.value("stack_kb", 0L);
+  if (!multi && stack_kb > 0) {
+    // resource fault: the caller runs on a thread with a small stack (as many applications do); a library
+    // whose stack use grows with the input overflows it
+    for (auto &tr : trs) {
+      pthread_attr_t at; pthread_attr_init(&at);
+      pthread_attr_setstacksize(&at, (size_t)stack_kb * 1024);
+      pthread_t th;
+      if (pthread_create(&th, &at, [](void *a) -> void * { tsan_ignore_begin(); run_task_ops((TaskRun *)a); tsan_ignore_end(); return nullptr; }, &tr) == 0) pthread_join(th, nullptr);
+      else run_task_ops(&tr);
+      pthread_attr_destroy(&at);
+    }
+    R.fired["small_stack_thread"]++;
+  } else if (!multi) {
     for (auto &tr : trs) run_task_ops(&tr);
   } else {
     const json &sc = plan["sched"];
